@@ -28,10 +28,17 @@
 EXTENDS Naturals, FiniteSets, TLC
 
 CONSTANTS AuthGate,     \* TRUE: messages above 79 are refused before authentication (as coded)
-          RoleCheck     \* TRUE: handlers check the role of the receiver (as coded)
+          RoleCheck,    \* TRUE: handlers check the role of the receiver (as coded)
+          StaleAuthHandler \* TRUE: sensitivity variant (a finished method handler stays installed)
 
 Roles == {"client", "server"}
-Phases == {"P0", "P1", "P2", "P3", "P4", "P5", "P4n", "P1w", "P5w"}
+\* "P3"  authentication in progress AND a method's message exchange is outstanding (a handler is
+\*       installed: keyboard-interactive challenge sent, ...): its 60..79 messages are expected
+\* "P3n" authentication in progress, no exchange outstanding (before the first request, after a
+\*       FAILURE): 60..79 is out of phase - "Authentication not in progress".  StaleAuthHandler
+\*       is the sensitivity variant in which the finished handler still takes them.
+Phases == {"P0", "P1", "P2", "P3", "P3n", "P4", "P5", "P4n", "P1w", "P5w"}
+InAuth(ph) == ph \in {"P3", "P3n"}
 Classes == {"DISCONNECT", "IGNORE", "UNIMPLEMENTED", "DEBUG", "SERVICE_REQUEST",
             "SERVICE_ACCEPT", "EXT_INFO", "KEXINIT", "NEWKEYS", "KEXMSG", "KEXOTHER",
             "USERAUTH_REQUEST", "USERAUTH_FAILURE", "USERAUTH_SUCCESS", "USERAUTH_BANNER",
@@ -63,7 +70,8 @@ Outcome(role, ph, c, strict) ==
                                                       \* a repeated INIT / REPLY must not run the exchange again)
     ELSE IF strict /\ ~Encrypted(ph) /\ c \in {"IGNORE", "UNIMPLEMENTED", "DEBUG"} THEN "fatal"
     ELSE IF c = "AUTH60" THEN
-        IF ph = "P3" THEN "process" ELSE "fatal"      \* "Authentication not in progress"
+        IF ph = "P3" \/ (StaleAuthHandler /\ ph = "P3n") THEN "process"
+        ELSE "fatal"                                  \* "Authentication not in progress"
     ELSE IF Above49(c) /\ ~Encrypted(ph) THEN "fatal" \* "before key exchange was complete"
     ELSE IF AuthGate /\ Above79(c) /\ ~AuthComplete(ph) THEN "fatal"
     ELSE IF c = "CHANNEL_MSG" THEN "fatal"            \* no such channel (none is open in these scenarios)
@@ -87,12 +95,12 @@ Outcome(role, ph, c, strict) ==
         ELSE "fatal"                                  \* "New keys not negotiated" (needs staged keys)
     ELSE IF c = "USERAUTH_REQUEST" THEN
         IF RoleCheck /\ role = "client" THEN "fatal"
-        ELSE IF ph = "P3" \/ ph = "P2" THEN "process"
+        ELSE IF InAuth(ph) \/ ph = "P2" THEN "process"
         ELSE "ignore"                                 \* after success: ignored (then fatal once auth is final)
     ELSE IF c \in {"USERAUTH_FAILURE", "USERAUTH_SUCCESS"} THEN
-        IF role = "client" /\ ph = "P3" THEN "process" ELSE "fatal"
+        IF role = "client" /\ InAuth(ph) THEN "process" ELSE "fatal"
     ELSE IF c = "USERAUTH_BANNER" THEN
-        IF role = "client" /\ ph = "P3" THEN "process" ELSE "fatal"
+        IF role = "client" /\ InAuth(ph) THEN "process" ELSE "fatal"
     ELSE IF c = "GLOBAL_REQUEST" THEN "process"
     ELSE IF c = "REQUEST_REPLY" THEN "fatal"          \* "Unexpected global response" (none outstanding)
     ELSE IF c = "CHANNEL_OPEN" THEN "process"         \* answered with OPEN_FAILURE or accepted
@@ -106,6 +114,9 @@ Expected(role, ph) ==
       [] ph = "P2" -> {"KEXINIT", "EXT_INFO", "DISCONNECT"} \cup
                       (IF role = "server" THEN {"SERVICE_REQUEST", "USERAUTH_REQUEST"} ELSE {"SERVICE_ACCEPT"})
       [] ph = "P3" -> {"KEXINIT", "DISCONNECT", "AUTH60"} \cup
+                      (IF role = "server" THEN {"USERAUTH_REQUEST"}
+                       ELSE {"USERAUTH_FAILURE", "USERAUTH_SUCCESS", "USERAUTH_BANNER"})
+      [] ph = "P3n" -> {"KEXINIT", "DISCONNECT"} \cup
                       (IF role = "server" THEN {"USERAUTH_REQUEST"}
                        ELSE {"USERAUTH_FAILURE", "USERAUTH_SUCCESS", "USERAUTH_BANNER"})
       [] ph = "P4" -> {"KEXINIT", "DISCONNECT", "GLOBAL_REQUEST", "REQUEST_REPLY", "CHANNEL_OPEN",
